@@ -370,3 +370,7 @@ def run(repo, chk, tier):
     from ..cacheown import check_memo_soundness
 
     check_memo_soundness(repo, chk)
+    # lazily batched data are one of the strategies: a copy of a lazy sample (data_replace) must not write through
+    from .c18_copy import check_copy_isolation
+
+    check_copy_isolation(repo, chk)
